@@ -37,6 +37,15 @@ CLAIMS = {
  "C19": dict(technique="Lean 4 theorems (floor-division characterisation + uniqueness, BisectLeft specification via the sort.Search binary search) + exhaustive correspondence",
              text="Machine-checked proof: Div/Mod as written (truncate, sign test, adjust) satisfy a=b*q+r, r zero or of the sign of b, |r|<|b| for all a and b != 0, and any pair with these properties is theirs (so they are Python's // and %); BisectLeft returns the least index with a[i] >= v on sorted input. Tie: exhaustive a in [-600,600] x b in [-40,40]\\{0}, random 64-bit incl. extremes, all sorted lists <=6 over 0..5.",
              design="7 (C19)", note="Trusted: Lean kernel + standard axioms; the correspondence check. Modelled: Go / and % as Int.tdiv/Int.tmod on unbounded Int (MinInt/-1 excluded as in the property); sort.Search as the stdlib binary search."),
+ "C06": dict(technique="Lean 4 theorems over the regenerated registry (invariant over all switch histories, no-panic, unknown-name error, agreement with per-calendar functions, laws from C01) + by-name correspondence incl. a fresh process per request",
+             text="Machine-checked proof: `Inv` (table loaded whenever table mode is on) holds in the default state and after every toggle history (induction over the history), so no by-name call panics; an unregistered name yields `err` in every position; a successful conversion is exactly JdTo_B(ToJd_A d); identity / inverse / composition follow from C01's `Bijective` for every implementation a name can resolve to (hijri table mode excepted: seam dates belong to C01). The registry is regenerated from /repo each run. Tie: `byname conv/convraw` streams (all name pairs over a 400-year window, all toggle histories of length <=4, random triples/histories/days, unknown names in every position) and one FRESH oracle process per request for the default state.",
+             design="7 (C06)", note="Trusted: Lean kernel + standard axioms; extractor (static constants = running registry) and correspondence check. Modelled: Go map assignment as later-entry-shadows fold; nil dereference as explicit `panic` result; package variables as a three-field state."),
+ "C18": dict(technique="Lean 4 theorems (integer round trips over Int; fractional-hour round trip and half-second bound over exact Rat) + exhaustive 86,400-value correspondence with the real float code",
+             text="Machine-checked proof of the integer clauses for all values; the float clauses are proved for the exact-rational model of GetFloatHour/FloatHourToHMS (PARTIAL: IEEE rounding is not modelled in Lean) and the finite round-trip clause is compared bit-exactly with the real float code for all 86,400 times on every run; the any-float clause is compared on k/3600, k/3600+-1e-9 and seeded random doubles via their exact rational values, and the one-second bound is evaluated exactly on the real results.",
+             design="7 (C18)", note="Trusted: Lean kernel + standard axioms; correspondence check. NOT modelled: IEEE-754 rounding inside fh*3600+0.5 and h+m/60+s/3600 (the model is exact rational arithmetic; where the exact value is within 1e-6 of a rounding boundary either neighbouring second is accepted in the comparison)."),
+ "C20": dict(technique="Lean 4 `decide` obligations over metadata regenerated from the source on every run + theorems for bounds and mean year length per configuration + year-block correspondence over -6000..12000",
+             text="Machine-checked proof over regenerated facts: names distinct, lookup returns the entry registered under the name, run-time map keys = registered names, 12 month names and abbreviations (all `decide` over Gen/CalMeta.lean); for each arithmetic configuration every reported month length lies within the advertised bounds for ALL years, and the advertised average year length is within 0.01 day of the true mean over any span >= 1000 years (closed forms, omega); regenerated month tables equal the model's. Tie: extractor requires source constants = running registry; `byname meta` dump model vs runtime; GetMonthLen by year blocks over the property's whole year range (complete in both tiers).",
+             design="7 (C20)", note="Trusted: Lean kernel + standard axioms; extractor + correspondence check. hijri month-table mode reports 28 and 31 at the table seams: open known findings (the model reproduces both by kernel evaluation)."),
 }
 
 PENDING = {}
